@@ -1,8 +1,9 @@
 //@ tu: tools/xcmrelay/xrelay.c tools/xcmrelay/rserver.c
 //@ enforce: rserver_terminate_relay
 //@ replace: xrelay_stop xrelay_destroy rserver_num_relays
+//@ defs: -DXV_RS_TERMINATE_JOB
 //@ props: C20
-//@ expect: postcondition>=1 canary=3
+//@ expect: postcondition>=2 canary=4
 #include "_rserver.h"
 void harness(void)
 {
@@ -17,7 +18,9 @@ void harness(void)
     if (head == NULL) { sv->relays.lh_first = xr; xr->entry.le_prev = &sv->relays.lh_first; }
     else { head->entry.le_next = xr; xr->entry.le_prev = &head->entry.le_next; }
     int reason; const char *msg;
+    xv_rs_term = xr; xv_rs_others = nondet_size_t(); __CPROVER_assume(xv_rs_others < 100000);
     rserver_terminate_relay(xr, reason, msg, sv);
+    if (xv_rs_others + 1 == MAX_RELAYS) XV_CANARY("relay was full: accepts again");
     if (head == NULL && next == NULL && sv->relays.lh_first == NULL) XV_CANARY("only relay terminated: list empty");
     if (head != NULL && next != NULL && head->entry.le_next == next) XV_CANARY("middle relay terminated: neighbours linked");
     if (head == NULL && next != NULL && sv->relays.lh_first == next) XV_CANARY("first relay terminated");
